@@ -11,15 +11,17 @@ from .lib.mir import AnchorLost, Call
 CONFIGS_QUICK = ["A"]
 CONFIGS_THOROUGH = ["A", "R"]
 TECHNIQUE = ('entry-by-entry comparison of the compiled calendar tables with their defining formulae; path-min/max count of unchecked writes vs capacity on the '
-             'built MIR; def-use ordering of table reads against reassignment of their index variable')
+             'built MIR; def-use ordering of table reads against reassignment of their index variable; interval abstract interpretation of itoa (digit bytes within 0x30..0x39)')
 LEVEL_TEXT = ('Decides clauses C20-a..e: YEAR_DELTAS (401 entries), YEAR_TO_FLAG (400) and OL_TO_MDL (733), read from the evaluated constants of the compiled crate, '
-              "equal the Gregorian-calendar formulae they stand for (leap-year counts, weekday/leap flag of 1 January under this source's own Of::weekday decoding, "
-              "ordinal->month/day deltas from the month lengths); the weekday and month name tables equal RFC 9110's day-name/month lists in the order the index "
-              'functions assume; into_imf_fixdate performs exactly 29 unchecked single-byte writes on every path into its 29-byte buffer, each followed by the index '
-              'increment, and itoa at most 1+MAX pushes into a buffer of capacity 1+MAX; in the date arithmetic a calendar-table entry read for a mutable year '
-              'variable is never used after that variable was reassigned (the year borrow in Date::from_days re-reads the table); no quotient or remainder is taken '
-              'of a function input that was first cast to fewer bits; where a comparison limits a table index, the largest admitted index is the last entry of the '
-              'table. Decides these clauses, not the day/year arithmetic or the digit extraction for all inputs.')
+              "equal the Gregorian-calendar formulae they stand for (leap-year counts, weekday/leap flag of 1 January under this source's own Of::weekday decoding, o"
+              "rdinal->month/day deltas from the month lengths); the weekday and month name tables equal RFC 9110's day-name/month lists in the order the index funct"
+              'ions assume; into_imf_fixdate performs exactly 29 unchecked single-byte writes on every path into its 29-byte buffer, each followed by the index incre'
+              'ment, and itoa at most 1+MAX pushes into a buffer of capacity 1+MAX; in the date arithmetic a calendar-table entry read for a mutable year variable is'
+              ' never used after that variable was reassigned (the year borrow in Date::from_days re-reads the table); no quotient or remainder is taken of a functio'
+              'n input that was first cast to fewer bits; where a comparison limits a table index, the largest admitted index is the last entry of the table. C20-f: '
+              'every byte itoa pushes is an ASCII digit, by interval analysis of its loop-free body (branch refinement on the power-of-ten guards, and n - C*(n/C) kn'
+              'own to be n mod C): the digit written at position k is bounded by 9 because n < 10^(k+1) holds there. Decides these clauses, not the day/year arithmet'
+              'ic or the digit extraction for all inputs.')
 
 
 def run(ck, progs):
@@ -33,6 +35,7 @@ def run(ck, progs):
         ck.guard("C20-c ORDER table read", lambda: c20c(ck, prog))
         ck.guard("C20-d ORDER reduce before truncating", lambda: c20d(ck, prog))
         ck.guard("C20-e BOUND table index range", lambda: c20e(ck, prog))
+        ck.guard("C20-f RANGE decimal digits", lambda: c20f(ck, prog))
     ck.config = None
 
 
@@ -549,3 +552,33 @@ def c20e(ck, prog):
                   ("entry %d can never be looked up (for OL_TO_MDL: the last day of a leap year gets the fallback value)" % (N - 1)) if top < N - 1 else "the read can leave the table"),
                   how="largest admitted index %d = last entry of the %d-entry table" % (top, N))
     ck.floor(R, "guarded table reads", n, 1)
+
+
+def c20f(ck, prog):
+    """`itoa(n)` is the decimal rendering of n: every byte itoa pushes is an ASCII digit. Interval analysis of itoa's
+    (loop-free) body: at each call of the push closure the byte is `b'0' + d` with d in 0..=9 -- which needs, for the digit
+    at position k, that n < 10^(k+1) there (by the guard of the step above, or because that step reduced n modulo
+    10^(k+1)). An off-by-one in such a guard (`n <= 10^k`) makes the digit `:` for exactly one input."""
+    from .lib import interval
+    R = "C20-f RANGE decimal digits"
+    g = prog.one(r"^ohkami_lib::num::itoa$")
+    try:
+        iv = interval.Intervals(g)
+    except interval.Unsupported as e:
+        ck.ob(R, "itoa:digit-range", False, g.loc(None), "cannot bound the bytes itoa pushes: %s" % e)
+        return
+    pushes = [c for c in g.calls() if (c.callee or "").startswith(g.key + "::{closure") and len(c.args) == 2]
+    n, bad = 0, []
+    for c in pushes:
+        if not iv.reachable(c.bb):
+            continue
+        n += 1
+        a = c.args[1]
+        rng = iv.field_at_terminator(c.bb, a[1][0], 0) if a[0] in ("c", "m") and not a[1][1] else None
+        if rng is None or rng[0] < 48 or rng[1] > 57:
+            bad.append((c, rng))
+    ok = not bad and n >= 2
+    ck.ob(R, "itoa:digit-range", ok, g.loc(bad[0][0].sp) if bad else g.loc(None),
+          "" if ok else ("a byte pushed by itoa lies in %s, not in b'0'..=b'9': for some n the rendering contains a non-digit (the step's guard admits an n one power of ten too large, or the digit is not reduced)" % (list(bad[0][1]) if bad[0][1] else "an unbounded range") if bad else "push calls of itoa not found (%d)" % n),
+          how="%d pushes, each byte within [48, 57]" % n)
+    ck.floor(R, "pushes of itoa analysed", n, 20)
